@@ -1,7 +1,218 @@
 """C11 -- jobs added for the wave-11 seeds (two cooperating sites); see the docstring of each job"""
+import logging
+
+import z3
+
 from pyvc.run import BResult, Job  # noqa: F401
+
+from .c09_10_11 import _dump
+
+
+# ------------------------------------------------------------------------------------------------ ABI singletons keep no history
+def _abi_keys():
+    from gtirb_rewriting import abi as ABIM
+    return sorted(ABIM._ABIS, key=lambda k: (k[0].name, k[1].name))
+
+
+def _register_classes(abi):
+    """the ABI's own register classes, by name, taken from an object WITHOUT history (a fresh instance of the same class)"""
+    fresh = type(abi)()
+    allr = fresh.all_registers()
+    cs = fresh.caller_saved_registers()
+    return {"all": [r.name for r in allr],
+            "caller_saved": [r.name for r in allr if r in cs],
+            "callee_saved": [r.name for r in allr if r not in cs],
+            "scratch": [r.name for r in fresh._scratch_registers()]}
+
+
+def _request_family(cls, flags):
+    """requests a patch can make of the allocator, built from the ABI's register CLASSES (not from register names): which class the
+    declared clobbers / reads come from, how many scratch registers (none, one, all there are -- the allocation then reaches into
+    every class the scratch list has), whether the caller-saved registers are preserved, whether the flags are"""
+    callee, caller, scratch = cls["callee_saved"], cls["caller_saved"], cls["scratch"]
+    fam = []
+    for pcs in (True, False):
+        sets = [("nothing", ())]
+        if callee:
+            sets += [("first-callee-saved", callee[:1]), ("last-callee-saved", callee[-1:]), ("every-callee-saved", callee)]
+        if caller:
+            sets += [("first-caller-saved", caller[:1])]
+        sets += [("every-register", cls["all"])]
+        for nm, clob in sets:
+            fam.append(("preserve=%s clobbers=%s" % (pcs, nm), dict(preserve_caller_saved_registers=pcs, clobbers_registers=set(clob))))
+        for n in sorted({1, len(scratch)}):
+            fam.append(("preserve=%s scratch=%d" % (pcs, n), dict(preserve_caller_saved_registers=pcs, scratch_registers=n)))
+        sc_callee = [r for r in scratch if r in callee]
+        if sc_callee:
+            fam.append(("preserve=%s reads=callee-saved scratch=1" % pcs,
+                        dict(preserve_caller_saved_registers=pcs, reads_registers=set(sc_callee[:2]), scratch_registers=1)))
+        if flags:
+            fam.append(("preserve=%s flags clobbers=%s" % (pcs, "first-callee-saved" if callee else "nothing"),
+                        dict(preserve_caller_saved_registers=pcs, clobbers_flags=True, clobbers_registers=set(callee[:1]))))
+    return fam
+
+
+def _frame(abi, kw, leaf=False):
+    """what the allocator and the frame generator answer to one request (everything that ends up in the rewritten code)"""
+    from gtirb_rewriting.assembly import Constraints
+    try:
+        cons = Constraints(**{k: (set(v) if isinstance(v, (set, frozenset)) else v) for k, v in kw.items()})
+        use = abi._allocate_patch_registers(cons)
+        snap = ([r.name for r in use.clobbered_registers], [r.name for r in use.scratch_registers], [r.name for r in use.available_registers])
+        pro, epi, adj = abi._create_prologue_and_epilogue(cons, use, leaf)
+        return (snap, [s_.code for s_ in pro], [s_.code for s_ in epi], adj)
+    except Exception as ex:       # noqa   (a refusal is an answer too: it has to be the same refusal every time)
+        return "%s: %s" % (type(ex).__name__, str(ex)[:60])
+
+
+def _classes_now(abi):
+    allr = abi.all_registers()
+    cs = abi.caller_saved_registers()
+    return {"all": [r.name for r in allr], "caller_saved": [r.name for r in allr if r in cs] + sorted(r.name for r in cs if r not in allr),
+            "scratch": [r.name for r in abi._scratch_registers()]}
+
+
+def allocation_history_harness(ctx):
+    """C11: the result of a rewrite is a function of the input IR and the registered modifications ONLY.  The ABI objects are
+    process-wide singletons shared by every rewrite of the process, so whatever they answer to a patch's request (registers, prologue,
+    epilogue, stack adjustment -- all of it ends up in the code) must not depend on the requests they served before.
+
+    One case = (ABI, one earlier request H of the family _request_family).  For every probe request P of the same family:
+      answer(P) before H  ==  answer(P) after H (asked three times)  ==  answer(P) of an object without any history (a fresh instance of
+      the ABI's class).
+    The family varies what allocation_repeatable_harness did not: WHICH register class the earlier patch's clobbers / reads / scratch
+    registers come from (callee-saved, caller-saved, all), together with preserve_caller_saved_registers on either side."""
+    from gtirb_rewriting import abi as ABIM
+    keys = _abi_keys()
+    isa, ff = keys[ctx.choose(len(keys), "abi")]
+    abi = ABIM._ABIS[(isa, ff)]
+    cls = _register_classes(abi)
+    fam = _request_family(cls, flags=isa.name != "MIPS32")
+    # the number of alternatives has to be the same for every ABI: pad by skipping
+    width = 2 * (6 + 2 + 1 + 1)
+    h = ctx.choose(width, "earlier-request")
+    ctx.cover("enumerated")
+    if h >= len(fam):
+        return
+    hname, hkw = fam[h]
+    tag = "%s/%s after [%s]" % (isa.name, ff.name, hname)
+
+    before = [_frame(abi, kw) for _, kw in fam]
+    classes_before = _classes_now(abi)
+    _frame(abi, hkw)                                             # the earlier request (its own answer is compared as a probe below)
+    _frame(abi, hkw, leaf=True)
+    classes_after = _classes_now(abi)
+    bad_again, bad_fresh = [], []
+    for (pname, kw), b in zip(fam, before):
+        later = [_frame(abi, kw) for _ in range(3)]
+        if any(x != b for x in later):
+            bad_again.append((pname, b[0] if isinstance(b, tuple) else b, [x[0] if isinstance(x, tuple) else x for x in later if x != b][:1]))
+        pristine = _frame(type(abi)(), kw)
+        if any(x != pristine for x in later + [b]):
+            bad_fresh.append((pname, pristine[0] if isinstance(pristine, tuple) else pristine,
+                              [x[0] if isinstance(x, tuple) else x for x in later + [b] if x != pristine][:1]))
+    ctx.prove("ABI/answer-to-a-request-does-not-depend-on-earlier-requests", z3.BoolVal(not bad_again),
+              note="%s: %d of %d probes differ, e.g. %s" % (tag, len(bad_again), len(fam), bad_again[:1]))
+    ctx.prove("ABI/answer-of-the-shared-object-equals-the-answer-of-an-object-without-history", z3.BoolVal(not bad_fresh),
+              note="%s: %d of %d probes differ, e.g. %s" % (tag, len(bad_fresh), len(fam), bad_fresh[:1]))
+    pristine_classes = _classes_now(type(abi)())
+    ctx.prove("ABI/register-classes-do-not-change-with-the-requests-served", z3.BoolVal(classes_before == classes_after == pristine_classes),
+              note="%s: %s" % (tag, [(k, pristine_classes[k], classes_after[k]) for k in pristine_classes if classes_after[k] != pristine_classes[k] or classes_before[k] != pristine_classes[k]][:1]))
+    # vacuity: the family really contains requests outside the caller-saved class and the probes really get frames
+    ctx.prove("ABI/history-family-is-not-vacuous", z3.BoolVal(bool(cls["all"]) and sum(isinstance(b, tuple) for b in before) >= len(fam) // 2),
+              note="%s: %d of %d probes answered with a frame" % (tag, sum(isinstance(b, tuple) for b in before), len(fam)))
+
+
+# ------------------------------------------------------------------------------------------------ the same rewrite again, after other rewrites
+_CODE = {
+    # (nop, return) per ISA
+    "X64": (b"\x90", b"\xc3"),
+    "IA32": (b"\x90", b"\xc3"),
+    "ARM64": (b"\x1f\x20\x03\xd5", b"\xc0\x03\x5f\xd6"),
+}
+
+
+def _rewrite_once(isa, ff, kw, where=0, body="nop"):
+    """a freshly built module (function f = [nop; nop; ret]) rewritten with ONE insertion of a patch with constraints kw; UUID-free dump"""
+    import gtirb_functions
+    import gtirb_rewriting
+    from gtirb_rewriting import Patch, patch_constraints
+    from gtirb_test_helpers import add_code_block, add_function, add_text_section, create_test_module
+    nop, ret = _CODE[isa.name]
+    ir, m = create_test_module(ff, isa)
+    _, bi = add_text_section(m, address=0x1000)
+    block = add_code_block(bi, nop + nop + ret)
+    add_function(m, "f", block)
+
+    @patch_constraints(**{k: (set(v) if isinstance(v, (set, frozenset)) else v) for k, v in kw.items()})
+    def pat(c):
+        return body
+    rc = gtirb_rewriting.RewritingContext(m, gtirb_functions.Function.build_functions(m))
+    rc.insert_at(block, where * len(nop), Patch.from_function(pat))
+    rc.apply()
+    return _dump(ir, drop=())
+
+
+def c11_history_bounded(tier, seed):
+    """C11 at the level of whole rewrites: "repeated runs give the same module".  The same freshly built module is rewritten with the same
+    single modification before and after an UNRELATED rewrite (another module, another context, another patch) in the same process; the
+    two dumps must be equal.  Varied: the ISA / file format, the constraints of the unrelated patch (register class of its clobbers,
+    number of scratch registers, preserve_caller_saved_registers, flags) and the constraints of the repeated patch."""
+    def run():
+        from gtirb_rewriting import abi as ABIM
+        logging.getLogger("gtirb_rewriting").setLevel(logging.CRITICAL)
+        br = BResult()
+        br.clauses = ["C11/same-rewrite-of-the-same-IR-gives-the-same-module-whatever-was-rewritten-before"]
+        br.bound = ("ISAs X64 (ELF, PE), IA32 (PE), ARM64 (ELF); a module [nop; nop; ret] rewritten with one inserted patch (constraints: none / "
+                    "preserve caller-saved / preserve + 1 scratch / flags + clobbers a callee-saved register) before and after an unrelated "
+                    "rewrite of another module whose patch's constraints range over the request family (register class of clobbers and reads, "
+                    "scratch count 1 / all, preserve on / off, flags)")
+        distinct = set()
+        for isa, ff in _abi_keys():
+            if isa.name not in _CODE:
+                continue
+            abi = ABIM._ABIS[(isa, ff)]
+            cls = _register_classes(abi)
+            fam = _request_family(cls, flags=True)
+            callee = cls["callee_saved"]
+            probes = [("no constraints", dict()),
+                      ("preserve caller-saved", dict(preserve_caller_saved_registers=True)),
+                      ("preserve caller-saved, 1 scratch", dict(preserve_caller_saved_registers=True, scratch_registers=1)),
+                      ("flags, clobbers a callee-saved register", dict(clobbers_flags=True, clobbers_registers=set(callee[:1])))]
+            try:
+                first = [_rewrite_once(isa, ff, kw, where=1) for _, kw in probes]
+            except Exception as ex:      # noqa
+                br.assumption_hits.append("probe rewrite raises on %s/%s: %s: %s" % (isa.name, ff.name, type(ex).__name__, str(ex)[:80]))
+                continue
+            for hname, hkw in fam:
+                try:
+                    _rewrite_once(isa, ff, hkw, where=0)
+                    applied = True
+                except Exception:       # noqa   (a request the ABI refuses: the refusal is history too)
+                    applied = False
+                for (pname, kw), f in zip(probes, first):
+                    br.cases += 1
+                    desc = {"module": "%s/%s [nop; nop; ret]" % (isa.name, ff.name), "repeated patch": pname,
+                            "unrelated rewrite in between": hname + ("" if applied else " (refused)")}
+                    try:
+                        again = _rewrite_once(isa, ff, kw, where=1)
+                    except Exception as ex:      # noqa
+                        again = "EXC %s: %s" % (type(ex).__name__, str(ex)[:60])
+                    if applied:
+                        distinct.add((isa.name, ff.name, pname, hname))
+                    if again != f:
+                        br.failures.append({"clause": br.clauses[0], "witness": desc,
+                                            "detail": "dumps differ (%d vs %d characters)%s" % (len(f), len(again), " " + again if again.startswith("EXC") else "")})
+                    elif len(br.samples) < 2:
+                        br.samples.append(desc)
+        br.nontrivial = len(distinct)
+        return br
+    return run
 
 
 def jobs(tier="quick", seed=0):
-    return
-    yield
+    yield Job("C11/allocation-history-independent", allocation_history_harness, kind="E",
+              func="gtirb_rewriting.abi:ABI._allocate_patch_registers/_create_prologue_and_epilogue/caller_saved_registers (shared objects: answers do not depend on earlier requests)",
+              expect_cover=("enumerated",))
+    yield Job("C11/repeated-rewrite-history-bounded", c11_history_bounded(tier, seed), kind="B",
+              func="gtirb_rewriting.rewriting:RewritingContext.apply (same rewrite before / after unrelated rewrites in one process)")
